@@ -45,6 +45,101 @@ theorem interp_above (x : Rat) (xp fp : List Rat) (hlen : xp.length = fp.length)
           rw [ih (f1 :: fs') (by simpa using hlen) (by simp) (fun p hp => h p (List.mem_cons_of_mem _ hp))]
           simp [List.getLast_cons]
 
+/-- **Inside a published row**: if every table node before node `k` is at most node `k` (the table has not
+stepped back so far) and `x` lies in `(T[k], T[k+1]]`, the interpolated error is the straight line between
+the two nodes - whatever the rest of the table looks like (the shipped NOAA-12 / NOAA-14 tables are not
+increasing everywhere). -/
+theorem interp_segment (x : Rat) (T E : List Rat) (k : Nat) (hlen : T.length = E.length) (hk : k + 1 < T.length)
+    (hrun : ∀ j (hj : j < k), T[j]'(by omega) ≤ T[k]'(by omega)) (h1 : T[k]'(by omega) < x) (h2 : x ≤ T[k + 1]) :
+    interp x T E = E[k]'(by omega) + (E[k + 1]'(by omega) - E[k]'(by omega)) * (x - T[k]'(by omega)) / (T[k + 1] - T[k]'(by omega)) := by
+  induction k generalizing T E with
+  | zero =>
+    match T, E, hlen, hk with
+    | x0 :: x1 :: xs, f0 :: f1 :: fs, _, _ =>
+      simp only [List.getElem_cons_zero, List.getElem_cons_succ, Nat.zero_add] at h1 h2 ⊢
+      have hne : x1 ≠ x0 := by intro e; rw [e] at h2; exact absurd h1 (not_lt.mpr h2)
+      simp only [interp, not_le.mpr h1, h2, hne, if_false, if_true]
+    | [_], _, _, hk => simp at hk
+    | [], _, _, hk => simp at hk
+    | _ :: _ :: _, [_], hlen, _ => simp at hlen
+    | _ :: _ :: _, [], hlen, _ => simp at hlen
+  | succ k ih =>
+    match T, E, hlen, hk with
+    | x0 :: x1 :: xs, f0 :: f1 :: fs, hlen, hk =>
+      have hx0 : x0 < x := lt_of_le_of_lt (hrun 0 (by omega)) h1
+      have hx1 : x1 < x := by
+        cases k with
+        | zero => simpa using h1
+        | succ k' =>
+          have := hrun 1 (by omega)
+          simp only [List.getElem_cons_succ, List.getElem_cons_zero] at this
+          exact lt_of_le_of_lt this h1
+      simp only [interp, not_le.mpr hx0, not_le.mpr hx1, if_false]
+      have := ih (x1 :: xs) (f1 :: fs) (by simpa using hlen) (by simpa using hk)
+        (by
+          intro j hj
+          have := hrun (j + 1) (by omega)
+          simpa using this)
+        (by simpa using h1) (by simpa using h2)
+      simpa using this
+    | [_], _, _, hk => simp at hk
+    | [], _, _, hk => simp at hk
+    | _ :: _ :: _, [_], hlen, _ => simp at hlen
+    | _ :: _ :: _, [], hlen, _ => simp at hlen
+
+/-- nodes of the generated tables up to which the table has not stepped back -/
+def runningOk (T : List Int) (k : Nat) : Bool := (T.take k).all (fun t => decide (t ≤ T.getD k 0))
+
+/-- rows `(2i, 2i+1)` of a table whose start node is a running maximum and lies before their end node -/
+def cleanRows (T : List Int) : List Nat :=
+  (List.range (T.length / 2)).filter (fun i => runningOk T (2 * i) && decide (T.getD (2 * i) 0 < T.getD (2 * i + 1) 0))
+
+/-- the shipped tables: number of rows and the rows that are NOT clean (a clock reset listed before the end
+of the previous row, or a row running backwards) - NOAA-7/9/11 have none -/
+theorem generated_table_rows :
+    Generated.clockTables.map (fun t => (t.1, t.2.1.length / 2,
+        (List.range (t.2.1.length / 2)).filter (fun i => !(cleanRows t.2.1).contains i)))
+      = [("noaa11", 50, []), ("noaa12", 52, [2, 3, 13, 14, 15, 16, 28, 29, 33, 34, 40, 44, 45, 49, 50, 51]),
+         ("noaa14", 19, [2, 12]), ("noaa7", 15, []), ("noaa9", 74, [])] := by
+  decide +kernel
+
+/-- **Every time inside a clean published row gets that row's own linear interpolation** (for any table, in
+particular the five shipped ones, whose clean rows are listed above): the clock error applied at time `t`,
+`start < t <= end` of row `i`, is `e_start + (e_end - e_start) (t - start) / (end - start)`. -/
+theorem published_row (T : List Int) (E : List Rat) (i : Nat) (hlen : T.length = E.length) (hi : i ∈ cleanRows T)
+    (t : Int) (h1 : T.getD (2 * i) 0 < t) (h2 : t ≤ T.getD (2 * i + 1) 0) :
+    errorsAt (T.map (fun (x : Int) => (x : Rat))) E [t] =
+      [E.getD (2 * i) 0 + (E.getD (2 * i + 1) 0 - E.getD (2 * i) 0) * ((t : Rat) - (T.getD (2 * i) 0 : Int))
+        / (((T.getD (2 * i + 1) 0 : Int) : Rat) - (T.getD (2 * i) 0 : Int))] := by
+  simp only [cleanRows, List.mem_filter, List.mem_range, Bool.and_eq_true, decide_eq_true_eq] at hi
+  obtain ⟨hir, hrun, _⟩ := hi
+  have hk : 2 * i + 1 < T.length := by omega
+  have hg : ∀ (j : Nat) (hj : j < T.length), T.getD j 0 = T[j] := fun j hj => (List.getElem_eq_getD 0).symm
+  have hgE : ∀ (j : Nat) (hj : j < E.length), E.getD j 0 = E[j] := fun j hj => (List.getElem_eq_getD 0).symm
+  rw [hg _ (by omega)] at h1
+  rw [hg _ hk] at h2
+  simp only [errorsAt, List.map_cons, List.map_nil]
+  rw [interp_segment (t : Rat) (T.map (fun (x : Int) => (x : Rat))) E (2 * i) (by simpa using hlen) (by simpa using hk)
+    (by
+      intro j hj
+      simp only [List.getElem_map]
+      unfold runningOk at hrun
+      rw [List.all_eq_true] at hrun
+      have hm : T[j] ∈ T.take (2 * i) := by
+        rw [List.mem_take_iff_getElem]
+        exact ⟨j, by omega, rfl⟩
+      have := hrun _ hm
+      rw [hg _ (by omega)] at this
+      exact_mod_cast (by simpa using this : T[j] ≤ T[2 * i]))
+    (by simp only [List.getElem_map]; exact_mod_cast h1)
+    (by simp only [List.getElem_map]; exact_mod_cast h2)]
+  simp only [List.getElem_map, hg _ hk, hg _ (show 2 * i < T.length by omega), hgE _ (show 2 * i < E.length by omega),
+    hgE _ (show 2 * i + 1 < E.length by omega)]
+
+/-- non-vacuity: row 3 of the NOAA-14 table (the row after the out-of-order clock reset of 1995-12-31) is clean -/
+example : ∀ t ∈ Generated.clockTables, t.1 = "noaa14" → 3 ∈ cleanRows t.2.1 ∧ t.2.1.length = t.2.2.length := by
+  decide +kernel
+
 /-- a table of zeros yields zero error everywhere -/
 theorem interp_zero_table (x : Rat) (xp : List Rat) : interp x xp (xp.map (fun _ => 0)) = 0 := by
   induction xp with
